@@ -168,6 +168,15 @@ def rand_state(r, n, kind, i=0):
         v = np.zeros(dim, dtype=complex)
         for j in r.choice(dim, size=max(1, dim // 2), replace=False):
             v[j] = r.normal() + 1j * r.normal()
+    elif kind == "npint":         # integer ndarray: entries are np.int64 (np.number, not int/float/complex)
+        v = np.zeros(dim, dtype=np.int64)
+        v[(i * 3 + 1) % dim] = [1, -1][i % 2]
+        return v
+    elif kind == "f32":           # float32 ndarray, uniform over a power-of-four number of entries (norm exactly 1 in float32)
+        cnt = 4 ** (n // 2)
+        v = np.zeros(dim, dtype=np.float32)
+        v[r.choice(dim, size=cnt, replace=False)] = np.float32(1.0 / math.sqrt(cnt)) * (-1 if i % 2 else 1)
+        return v
     else:
         raise ValueError(kind)
     return v / np.linalg.norm(v)
@@ -624,6 +633,150 @@ def run_oracle(ctx, nmax, kmax, per_cell):
 
 
 # ----------------------------------------------------------------------------------------------
+# generator-quality audit: options and entry points the sweeps above leave at their defaults
+# ----------------------------------------------------------------------------------------------
+UNREACHED_JUSTIFIED = {
+    "qclib/gates/initialize_mixed.py:21 initialize": "body-less base-class stub (`pass`), overridden by "
+                                                     "MixedInitialize.initialize; nothing calls it",
+    "qclib/gates/initialize_mixed.py:41": "raise for an ensemble entry that is not a number: invalid input, not one of the "
+                                          "rejections the property lists (probability vectors)",
+}
+
+
+def permute_state(s, pos):
+    """state over bits 0..n-1 -> the same state with old bit j moved to bit pos[j]"""
+    s = np.asarray(s, dtype=complex)
+    n = len(pos)
+    out = np.zeros_like(s)
+    for idx in range(len(s)):
+        j2 = 0
+        for j in range(n):
+            if (idx >> j) & 1:
+                j2 |= 1 << pos[j]
+        out[j2] = s[idx]
+    return out
+
+
+def option_case(ctx, n, k, states, probs, tag, classical=True, ctor_kw=None):
+    """constructor options the sweeps leave at their defaults (label, initializer, ensemble entry types): same observable"""
+    from qclib.state_preparation.mixed import MixedInitialize
+    from qiskit.quantum_info import Statevector, partial_trace
+    mode = "classical" if classical else "incircuit"
+    key = f"ensemble:{mode}:n={n}:k={k}:option:{tag}"
+    rep = {"kind": "option", "tag": tag}
+    a = clog2(k)
+    eff = probs if probs is not None else [1 / k] * k
+    try:
+        g = MixedInitialize(states, probabilities=probs, classical=classical, reset=False, **(ctor_kw or {}))
+        circ = g.definition
+        sv = Statevector(circ)
+    except Exception as e:  # noqa: BLE001
+        if "initializer" in (ctor_kw or {}) and not classical:
+            # the property quantifies over ensembles, probabilities and the two modes with the default sub-initializer;
+            # a non-default `initializer` whose definition cannot be controlled is outside it: recorded, not judged
+            ctx.count("outside-quantifier:incircuit with non-default initializer raises")
+            ctx.notes.append(f"outside the quantifier: MixedInitialize(..., {tag}, classical=False).definition raises "
+                             f"{type(e).__name__}: {str(e)[:120]}")
+            return None
+        ctx.fail(key + ":construct-raises", f"valid ensemble / option raised {type(e).__name__}: {str(e)[:200]}", rep)
+        return None
+    ideal = sum(p * np.outer(np.asarray(s, dtype=complex), np.conj(np.asarray(s, dtype=complex))) for p, s in zip(eff, states))
+    rho = partial_trace(sv, list(range(a))).data if a else np.outer(sv.data, sv.data.conj())
+    err = float(np.abs(rho - ideal).max())
+    want = (ctor_kw or {}).get("label")
+    if g.num_qubits != n + a or circ.num_qubits != n + a:
+        ctx.fail(key + ":width", f"num_qubits {g.num_qubits} / circuit {circ.num_qubits} != {n + a}", rep)
+    elif err > 1e-7:
+        ctx.fail(key + ":reduced-state", f"max |Tr_aux(out) - sum p_i|psi_i><psi_i|| = {err:.3e}", dict(rep, err=err))
+    elif g.label != (want if want is not None else "Mixed"):
+        ctx.fail(key + ":label", f"label {g.label!r}, requested {want!r}", rep)
+    else:
+        ctx.ok(key, nontrivial=k >= 2, sample={"mode": mode, "n": n, "k": k, "option": tag, "err": err})
+    return g
+
+
+def run_options(ctx):
+    from qclib.state_preparation.mixed import MixedInitialize
+    from qclib.state_preparation import TopDownInitialize, UCGInitialize
+    from qiskit import QuantumCircuit
+    from qiskit.quantum_info import DensityMatrix, Statevector, partial_trace
+    r = ctx.nprng()
+    # (1) explicit label (constructor branch `label is None` -> False) and inverse(): gate . inverse = identity, "_dg" label
+    for n, k, classical in ((1, 2, True), (2, 3, True), (2, 2, False), (2, 3, False)):
+        states, probs = make_states(r, n, k, "complex"), make_probs(r, k, "random")
+        for lab in (None, "rho15"):
+            ctx.count("branch:label " + ("given" if lab else "default") + " + inverse")
+            g = option_case(ctx, n, k, states, probs, f"label={lab}", classical, {"label": lab} if lab else None)
+            if g is None:
+                continue
+            key = f"inverse:{'classical' if classical else 'incircuit'}:n={n}:k={k}:label={lab}"
+            try:
+                inv = g.inverse()
+                both = g.definition.compose(inv.definition)
+                back = Statevector(both).data
+            except Exception as e:  # noqa: BLE001
+                ctx.fail(key + ":raises", f"MixedInitialize(reset=False).inverse() raised {type(e).__name__}: {str(e)[:200]}",
+                         {"kind": "option", "tag": "inverse"})
+                continue
+            e0 = abs(abs(back[0]) - 1)
+            if e0 > 1e-7:
+                ctx.fail(key + ":not-identity", f"gate followed by its inverse leaves |0..0> with overlap off by {e0:.3e}",
+                         {"kind": "option", "tag": "inverse"})
+            elif inv.label != (lab or "Mixed") + "_dg" or g.label != (lab or "Mixed"):
+                ctx.fail(key + ":label", f"inverse label {inv.label!r}, gate label {g.label!r}", {"kind": "option", "tag": "inverse"})
+            else:
+                ctx.ok(key)
+    # (2) ensembles whose entries are numpy scalars other than float64/complex128 (second branch of validate_parameter)
+    for kind in ("npint", "f32"):
+        for n, k, classical in ((1, 2, True), (2, 3, True), (2, 4, False), (3, 2, True)):
+            ctx.count("branch:ensemble entry type " + kind)
+            states = make_states(r, n, k, kind)
+            probs = make_probs(r, k, "dyadic")
+            option_case(ctx, n, k, states, probs, f"entries={kind}", classical)
+            if classical:
+                tie_purification(ctx, n, k, states, probs, reset=False)
+    # (3) another sub-initializer class (documented option `initializer`)
+    for init, nm in ((TopDownInitialize, "TopDown"), (UCGInitialize, "UCG")):
+        for n, k, classical in ((2, 3, True), (2, 2, False)):
+            ctx.count("branch:initializer=" + nm)
+            option_case(ctx, n, k, make_states(r, n, k, "mixed"), make_probs(r, k, "zeros"), f"initializer={nm}", classical,
+                        {"initializer": init})
+    # (4) static entry point with an explicit ordered qubit list inside a larger circuit
+    for n, k in ((1, 2), (2, 3), (2, 4), (1, 5)):
+        a = clog2(k)
+        w = n + a
+        m = w + 1
+        qs = [int(q) for q in r.permutation(m)[:w]]
+        states, probs = make_states(r, n, k, "complex"), make_probs(r, k, "random")
+        key = f"ensemble:static:n={n}:k={k}:qubits={qs}"
+        ctx.count("branch:initialize(qubits=list)")
+        try:
+            host = QuantumCircuit(m)
+            MixedInitialize.initialize(host, states, qubits=qs, probabilities=probs)
+            dm = DensityMatrix(host)
+        except Exception as e:  # noqa: BLE001
+            ctx.fail(key + ":construct-raises", f"MixedInitialize.initialize(circuit, ensemble, qubits={qs}) raised "
+                     f"{type(e).__name__}: {str(e)[:200]}", {"kind": "option", "tag": "static-qubits"})
+            continue
+        data = qs[a:]                                    # gate qubit a + j (data qubit j) sits on host wire qs[a + j]
+        keep = sorted(data)
+        rho = partial_trace(dm, [q for q in range(m) if q not in keep]).data
+        pos = [keep.index(h) for h in data]
+        ideal = sum(p * np.outer(permute_state(s, pos), np.conj(permute_state(s, pos))) for p, s in zip(probs, states))
+        others = partial_trace(dm, keep).data           # aux (reset) and the spectator: all |0>
+        err = float(np.abs(rho - ideal).max())
+        e_rest = abs(others[0, 0] - 1)
+        if err > 1e-7:
+            ctx.fail(key + ":reduced-state", f"data qubits {data}: max |rho - sum p_i|psi_i><psi_i|| = {err:.3e}",
+                     {"kind": "option", "tag": "static-qubits"})
+        elif e_rest > 1e-7:
+            ctx.fail(key + ":other-qubits", f"auxiliary / untouched qubits are not |0> afterwards ({e_rest:.3e})",
+                     {"kind": "option", "tag": "static-qubits"})
+        else:
+            ctx.ok(key, nontrivial=True, sample={"static": True, "n": n, "k": k, "qubits": qs, "err": err})
+
+
+# ----------------------------------------------------------------------------------------------
 def compare(op, impl, model):
     import framework
     if any(l.startswith(("raise", "UNKNOWN", "PARSE")) for l in list(impl) + list(model)):
@@ -644,6 +797,7 @@ def run(ctx):
         run_purifications(ctx, 3, 9)
         run_oracle(ctx, 3, 6, per_cell=0)
         run_oracle(ctx, 4, 9, per_cell=4)
+    run_options(ctx)
     ctx.notes.append("sum offsets within 5e-10..2e-9 of 1 are not generated (builtin sum is compensated in CPython>=3.12, "
                      "the model folds left; the decision can legitimately differ there)")
     ctx.notes.append("probability vectors whose length differs from the number of states are NOT rejected by the code "
@@ -688,6 +842,8 @@ def replay(ctx, payload):
         r = ctx.nprng()
         got, _ = decision_impl(make_states(r, rp["n"], rp["k"], "complex"), probs, rp["classical"])
         reject_oracle(ctx, got[0], "replay", probs, rp["expected"], rp["n"], rp["k"], rp["classical"])
+    elif rp.get("kind") == "option":
+        run_options(ctx)
     elif rp.get("kind") == "ensemble":
         states = [np.array([complex(a, b) for a, b in s]) for s in rp["states"]]
         probs = None if rp["probs"] is None else [float(x) for x in rp["probs"]]
